@@ -1,9 +1,697 @@
-//! C15 harness: run Key::compare / separator / as_bytes / from_bytes of the real crate on generated pairs.
-//! usage: c15 <n_cases>   writes cases.txt and impl.txt into the cwd
+//! C15 harness: run Value::as_bytes / from_bytes, Key::compare (both argument orders), Key::separator,
+//! Key::min_encoded_key, Value::fixed_width and btree_base::branch_separator of the REAL crate on
+//! generated pairs of values of many monomorphised key types (every constructor, two nesting levels).
+//!
+//! usage: c15 <n_pairs_per_type> [focus-type-desc|-] [random|exhaustive|replay <a> <b> ...]
+//! writes into the cwd (one line per case in all three, see ocaml/c15_driver.ml for the syntax)
+//!   cases.txt   T <tid> <type> | C <tid> <a> <b>            the VALUES (the model computes from these)
+//!   impl.txt    what the implementation returned (compared with the model line by line)
+//!   implx.txt   extra facts about the implementation's outputs for the direct oracle (S3)
+//! stdout: cases=<n> distinct_nontrivial=<n> markers=<k=v,...> types=<n>
 use redb::{Key, Value};
-use rv_harness::{Rng, hex, seed_from_env};
+use rv_harness::{Rng, catch, hex, seed_from_env, silence_panics, tier_is_thorough};
 use std::cmp::Ordering;
+use std::collections::{BTreeMap, HashSet};
 use std::fmt::Write as _;
+use std::marker::PhantomData;
+
+// ------------------------------------------------------------------ generic values
+
+/// A value of any built-in key type. The derived `Ord` IS the value order: integers numerically,
+/// false < true, chars by scalar value, strings/bytes lexicographically, None < Some, lists
+/// lexicographically (std semantics of each Rust type).
+#[derive(Clone, Debug, PartialEq, Eq, PartialOrd, Ord, Hash)]
+enum V {
+    Unit,
+    Bool(bool),
+    Char(char),
+    U(u128),
+    I(i128),
+    Str(String),
+    Bytes(Vec<u8>),
+    None_,
+    Some_(Box<V>),
+    List(Vec<V>),
+}
+
+fn show(v: &V, s: &mut String) {
+    match v {
+        V::Unit => s.push('u'),
+        V::Bool(b) => s.push(if *b { 'T' } else { 'F' }),
+        V::Char(c) => write!(s, "c{:x}", *c as u32).unwrap(),
+        V::U(x) => write!(s, "n{x:x}").unwrap(),
+        V::I(x) => {
+            if *x < 0 {
+                write!(s, "i-{:x}", x.unsigned_abs()).unwrap()
+            } else {
+                write!(s, "i{x:x}").unwrap()
+            }
+        }
+        V::Str(x) => {
+            s.push_str("s[");
+            for (i, c) in x.chars().enumerate() {
+                if i > 0 {
+                    s.push('.');
+                }
+                write!(s, "{:x}", c as u32).unwrap();
+            }
+            s.push(']');
+        }
+        V::Bytes(b) => {
+            s.push_str("x[");
+            for x in b {
+                write!(s, "{x:02x}").unwrap();
+            }
+            s.push(']');
+        }
+        V::None_ => s.push('N'),
+        V::Some_(x) => {
+            s.push('S');
+            show(x, s);
+        }
+        V::List(l) => {
+            s.push_str("L[");
+            for (i, x) in l.iter().enumerate() {
+                if i > 0 {
+                    s.push(',');
+                }
+                show(x, s);
+            }
+            s.push(']');
+        }
+    }
+}
+
+fn shown(v: &V) -> String {
+    let mut s = String::new();
+    show(v, &mut s);
+    s
+}
+
+/// inverse of `show` (replay mode)
+fn parse_v(s: &[u8], pos: &mut usize) -> V {
+    fn hexrun(s: &[u8], pos: &mut usize) -> String {
+        let st = *pos;
+        while *pos < s.len() && (s[*pos] as char).is_ascii_hexdigit() && !(s[*pos] as char).is_ascii_uppercase() {
+            *pos += 1;
+        }
+        String::from_utf8(s[st..*pos].to_vec()).unwrap()
+    }
+    let c = s[*pos] as char;
+    *pos += 1;
+    match c {
+        'u' => V::Unit,
+        'T' => V::Bool(true),
+        'F' => V::Bool(false),
+        'c' => V::Char(char::from_u32(u32::from_str_radix(&hexrun(s, pos), 16).unwrap()).unwrap()),
+        'n' => V::U(u128::from_str_radix(&hexrun(s, pos), 16).unwrap()),
+        'i' => {
+            let neg = s[*pos] == b'-';
+            if neg {
+                *pos += 1;
+            }
+            let m = u128::from_str_radix(&hexrun(s, pos), 16).unwrap();
+            V::I(if neg { (m as i128).wrapping_neg() } else { m as i128 })
+        }
+        's' => {
+            *pos += 1; // [
+            let mut out = String::new();
+            while s[*pos] != b']' {
+                if s[*pos] == b'.' {
+                    *pos += 1;
+                }
+                out.push(char::from_u32(u32::from_str_radix(&hexrun(s, pos), 16).unwrap()).unwrap());
+            }
+            *pos += 1;
+            V::Str(out)
+        }
+        'x' => {
+            *pos += 1;
+            let h = hexrun(s, pos);
+            *pos += 1;
+            V::Bytes(if h.is_empty() { vec![] } else { rv_harness::unhex(&h) })
+        }
+        'N' => V::None_,
+        'S' => V::Some_(Box::new(parse_v(s, pos))),
+        'L' => {
+            *pos += 1;
+            let mut l = Vec::new();
+            while s[*pos] != b']' {
+                if s[*pos] == b',' {
+                    *pos += 1;
+                }
+                l.push(parse_v(s, pos));
+            }
+            *pos += 1;
+            V::List(l)
+        }
+        _ => panic!("bad value syntax"),
+    }
+}
+
+// ------------------------------------------------------------------ the type universe
+
+trait Ty: 'static {
+    type K: Key + 'static;
+    fn desc() -> String;
+    /// a random value; `big` allows long strings / byte strings (varint and offset boundaries)
+    fn rand(r: &mut Rng, big: bool) -> V;
+    /// a value close to `v`: equal, adjacent, sharing a prefix, differing late, ...
+    fn near(r: &mut Rng, v: &V) -> V;
+    fn to_native<'a>(v: &'a V) -> <Self::K as Value>::SelfType<'a>;
+    fn from_native<'a>(x: &<Self::K as Value>::SelfType<'a>) -> V;
+}
+
+// ---- integers
+fn rand_uint(r: &mut Rng, bits: u32) -> u128 {
+    let mask = if bits == 128 { u128::MAX } else { (1u128 << bits) - 1 };
+    let wide = ((r.next_u64() as u128) << 64) | r.next_u64() as u128;
+    (match r.below(7) {
+        0 => 0,
+        1 => mask,
+        2 => r.below(300) as u128,
+        3 => 1u128 << r.below(bits as u64),
+        4 => (1u128 << r.below(bits as u64)).wrapping_sub(1),
+        5 => mask >> 1, // signed max / the sign boundary
+        _ => wide,
+    }) & mask
+}
+fn near_uint(r: &mut Rng, x: u128, bits: u32) -> u128 {
+    let mask = if bits == 128 { u128::MAX } else { (1u128 << bits) - 1 };
+    (match r.below(6) {
+        0 => x,
+        1 => x.wrapping_add(1),
+        2 => x.wrapping_sub(1),
+        3 => x ^ (1u128 << r.below(bits as u64)),
+        4 => x.swap_bytes() >> (128 - bits), // same bytes, other significance
+        _ => rand_uint(r, bits),
+    }) & mask
+}
+fn sext(x: u128, bits: u32) -> i128 {
+    if bits == 128 { x as i128 } else { ((x << (128 - bits)) as i128) >> (128 - bits) }
+}
+fn trunc(x: i128, bits: u32) -> u128 {
+    if bits == 128 { x as u128 } else { (x as u128) & ((1u128 << bits) - 1) }
+}
+
+macro_rules! uint_ty {
+    ($name:ident, $t:ty, $desc:expr) => {
+        struct $name;
+        impl Ty for $name {
+            type K = $t;
+            fn desc() -> String {
+                $desc.into()
+            }
+            fn rand(r: &mut Rng, _big: bool) -> V {
+                V::U(rand_uint(r, <$t>::BITS))
+            }
+            fn near(r: &mut Rng, v: &V) -> V {
+                let V::U(x) = v else { panic!() };
+                V::U(near_uint(r, *x, <$t>::BITS))
+            }
+            fn to_native<'a>(v: &'a V) -> $t {
+                let V::U(x) = v else { panic!() };
+                *x as $t
+            }
+            fn from_native<'a>(x: &$t) -> V {
+                V::U(*x as u128)
+            }
+        }
+    };
+}
+macro_rules! sint_ty {
+    ($name:ident, $t:ty, $desc:expr) => {
+        struct $name;
+        impl Ty for $name {
+            type K = $t;
+            fn desc() -> String {
+                $desc.into()
+            }
+            fn rand(r: &mut Rng, _big: bool) -> V {
+                V::I(sext(rand_uint(r, <$t>::BITS), <$t>::BITS))
+            }
+            fn near(r: &mut Rng, v: &V) -> V {
+                let V::I(x) = v else { panic!() };
+                if r.chance(1, 6) {
+                    return V::I(sext(trunc(x.wrapping_neg(), <$t>::BITS), <$t>::BITS));
+                }
+                V::I(sext(near_uint(r, trunc(*x, <$t>::BITS), <$t>::BITS), <$t>::BITS))
+            }
+            fn to_native<'a>(v: &'a V) -> $t {
+                let V::I(x) = v else { panic!() };
+                *x as $t
+            }
+            fn from_native<'a>(x: &$t) -> V {
+                V::I(*x as i128)
+            }
+        }
+    };
+}
+uint_ty!(U8, u8, "u8");
+uint_ty!(U16, u16, "u16");
+uint_ty!(U32, u32, "u32");
+uint_ty!(U64, u64, "u64");
+uint_ty!(U128, u128, "u128");
+sint_ty!(I8, i8, "i8");
+sint_ty!(I16, i16, "i16");
+sint_ty!(I32, i32, "i32");
+sint_ty!(I64, i64, "i64");
+sint_ty!(I128, i128, "i128");
+
+// ---- unit, bool, char
+struct Unit;
+impl Ty for Unit {
+    type K = ();
+    fn desc() -> String {
+        "unit".into()
+    }
+    fn rand(_r: &mut Rng, _big: bool) -> V {
+        V::Unit
+    }
+    fn near(_r: &mut Rng, _v: &V) -> V {
+        V::Unit
+    }
+    fn to_native<'a>(_v: &'a V) {}
+    fn from_native<'a>(_x: &()) -> V {
+        V::Unit
+    }
+}
+struct Bool;
+impl Ty for Bool {
+    type K = bool;
+    fn desc() -> String {
+        "bool".into()
+    }
+    fn rand(r: &mut Rng, _big: bool) -> V {
+        V::Bool(r.chance(1, 2))
+    }
+    fn near(r: &mut Rng, v: &V) -> V {
+        let V::Bool(b) = v else { panic!() };
+        V::Bool(if r.chance(1, 2) { *b } else { !*b })
+    }
+    fn to_native<'a>(v: &'a V) -> bool {
+        let V::Bool(b) = v else { panic!() };
+        *b
+    }
+    fn from_native<'a>(x: &bool) -> V {
+        V::Bool(*x)
+    }
+}
+
+/// scalars covering the four UTF-8 lengths, their boundaries, the surrogate gap and the extremes
+const CHARS: &[char] = &[
+    '\u{0}', '\u{1}', 'a', 'b', 'z', '\u{7f}', '\u{80}', '\u{e9}', '\u{ea}', '\u{7ff}', '\u{800}', '\u{801}',
+    '\u{d7ff}', '\u{e000}', '\u{fffd}', '\u{ffff}', '\u{10000}', '\u{10001}', '\u{1d11e}', '\u{1d11f}',
+    '\u{10fffe}', '\u{10ffff}',
+];
+fn rand_char(r: &mut Rng) -> char {
+    if r.chance(3, 4) {
+        *r.pick(CHARS)
+    } else {
+        loop {
+            if let Some(c) = char::from_u32(r.below(0x11_0000) as u32) {
+                return c;
+            }
+        }
+    }
+}
+fn near_char(r: &mut Rng, c: char) -> char {
+    let x = c as u32;
+    let cand = match r.below(6) {
+        0 => x,
+        1 => x.wrapping_add(1),
+        2 => x.wrapping_sub(1),
+        3 => x ^ (1 << r.below(21)),
+        4 => x ^ (1 << r.below(6)), // same lead byte(s), other last continuation byte
+        _ => rand_char(r) as u32,
+    };
+    char::from_u32(cand).unwrap_or(if cand < 0xE000 { '\u{d7ff}' } else { '\u{e000}' })
+}
+struct Char;
+impl Ty for Char {
+    type K = char;
+    fn desc() -> String {
+        "char".into()
+    }
+    fn rand(r: &mut Rng, _big: bool) -> V {
+        V::Char(rand_char(r))
+    }
+    fn near(r: &mut Rng, v: &V) -> V {
+        let V::Char(c) = v else { panic!() };
+        V::Char(near_char(r, *c))
+    }
+    fn to_native<'a>(v: &'a V) -> char {
+        let V::Char(c) = v else { panic!() };
+        *c
+    }
+    fn from_native<'a>(x: &char) -> V {
+        V::Char(*x)
+    }
+}
+
+// ---- strings and byte strings
+const BIG_LENS: &[usize] = &[252, 253, 254, 255, 256, 300, 65534, 65535, 65536, 65537];
+fn rand_len(r: &mut Rng, big: bool) -> usize {
+    if big && r.chance(1, 2) {
+        // the varint escapes (254 / 255) of tuple headers; the huge ones rarely
+        if r.chance(1, 8) { *r.pick(BIG_LENS) } else { *r.pick(&BIG_LENS[..6]) }
+    } else {
+        *r.pick(&[0usize, 0, 1, 1, 2, 2, 3, 4, 5, 7, 10, 17])
+    }
+}
+fn rand_chars(r: &mut Rng, big: bool) -> Vec<char> {
+    let len = rand_len(r, big);
+    if len > 100 {
+        // long: mostly one byte chars so that the BYTE length lands on the boundary
+        let c = *r.pick(&['a', 'b', '\u{0}']);
+        let mut v = vec![c; len];
+        if r.chance(1, 2) {
+            let i = r.below(len as u64) as usize;
+            v[i] = rand_char(r);
+        }
+        v
+    } else {
+        (0..len).map(|_| rand_char(r)).collect()
+    }
+}
+fn near_chars(r: &mut Rng, a: &[char]) -> Vec<char> {
+    let mut b: Vec<char> = a.to_vec();
+    match r.below(8) {
+        0 => {}
+        1 => {
+            // common prefix of every length: change the char at a random position, keep the tail
+            if !b.is_empty() {
+                let i = r.below(b.len() as u64) as usize;
+                b[i] = near_char(r, b[i]);
+            }
+        }
+        2 => {
+            // common prefix, then diverge and drop / replace the tail
+            let k = r.below(b.len() as u64 + 1) as usize;
+            b.truncate(k);
+            b.extend(rand_chars(r, false));
+        }
+        3 => b.extend(rand_chars(r, false)), // a is a prefix of b
+        4 => {
+            let k = r.below(b.len() as u64 + 1) as usize; // b is a prefix of a
+            b.truncate(k);
+        }
+        5 => {
+            // first difference inside a multi-byte character, long tails on both sides
+            if !b.is_empty() {
+                let i = r.below(b.len() as u64) as usize;
+                let x = b[i] as u32;
+                b[i] = char::from_u32(x ^ 1).unwrap_or(b[i]);
+                let extra = r.below(4) as usize;
+                for _ in 0..extra {
+                    b.push(rand_char(r));
+                }
+            }
+        }
+        6 => {
+            if !b.is_empty() {
+                let i = r.below(b.len() as u64) as usize;
+                b.remove(i);
+            }
+        }
+        _ => {
+            let i = r.below(b.len() as u64 + 1) as usize;
+            b.insert(i, rand_char(r));
+        }
+    }
+    b
+}
+const BYTE_ALPHABET: [u8; 7] = [0, 1, 0x7f, 0x80, 0xc3, 0xfe, 0xff];
+fn rand_byte(r: &mut Rng) -> u8 {
+    if r.chance(3, 4) { *r.pick(&BYTE_ALPHABET) } else { r.next_u64() as u8 }
+}
+fn rand_bytes(r: &mut Rng, big: bool) -> Vec<u8> {
+    let len = rand_len(r, big);
+    if len > 100 {
+        let c = rand_byte(r);
+        let mut v = vec![c; len];
+        if r.chance(1, 2) {
+            let i = r.below(len as u64) as usize;
+            v[i] = rand_byte(r);
+        }
+        v
+    } else {
+        (0..len).map(|_| rand_byte(r)).collect()
+    }
+}
+fn near_bytes(r: &mut Rng, a: &[u8]) -> Vec<u8> {
+    let mut b = a.to_vec();
+    match r.below(7) {
+        0 => {}
+        1 => {
+            if !b.is_empty() {
+                let i = r.below(b.len() as u64) as usize;
+                b[i] = match r.below(3) {
+                    0 => b[i].wrapping_add(1),
+                    1 => b[i].wrapping_sub(1),
+                    _ => rand_byte(r),
+                };
+            }
+        }
+        2 => {
+            let k = r.below(b.len() as u64 + 1) as usize;
+            b.truncate(k);
+            b.extend(rand_bytes(r, false));
+        }
+        3 => b.extend(rand_bytes(r, false)),
+        4 => {
+            let k = r.below(b.len() as u64 + 1) as usize;
+            b.truncate(k);
+        }
+        5 => {
+            if !b.is_empty() {
+                let i = r.below(b.len() as u64) as usize;
+                b.remove(i);
+            }
+        }
+        _ => {
+            let i = r.below(b.len() as u64 + 1) as usize;
+            b.insert(i, rand_byte(r));
+        }
+    }
+    b
+}
+
+struct Str;
+impl Ty for Str {
+    type K = &'static str;
+    fn desc() -> String {
+        "str".into()
+    }
+    fn rand(r: &mut Rng, big: bool) -> V {
+        V::Str(rand_chars(r, big).into_iter().collect())
+    }
+    fn near(r: &mut Rng, v: &V) -> V {
+        let V::Str(s) = v else { panic!() };
+        let cs: Vec<char> = s.chars().collect();
+        V::Str(near_chars(r, &cs).into_iter().collect())
+    }
+    fn to_native<'a>(v: &'a V) -> &'a str {
+        let V::Str(s) = v else { panic!() };
+        s.as_str()
+    }
+    fn from_native<'a>(x: &&'a str) -> V {
+        V::Str((*x).to_string())
+    }
+}
+struct StrOwned;
+impl Ty for StrOwned {
+    type K = String;
+    fn desc() -> String {
+        "string".into()
+    }
+    fn rand(r: &mut Rng, big: bool) -> V {
+        Str::rand(r, big)
+    }
+    fn near(r: &mut Rng, v: &V) -> V {
+        Str::near(r, v)
+    }
+    fn to_native<'a>(v: &'a V) -> String {
+        let V::Str(s) = v else { panic!() };
+        s.clone()
+    }
+    fn from_native<'a>(x: &String) -> V {
+        V::Str(x.clone())
+    }
+}
+struct Bytes;
+impl Ty for Bytes {
+    type K = &'static [u8];
+    fn desc() -> String {
+        "bytes".into()
+    }
+    fn rand(r: &mut Rng, big: bool) -> V {
+        V::Bytes(rand_bytes(r, big))
+    }
+    fn near(r: &mut Rng, v: &V) -> V {
+        let V::Bytes(b) = v else { panic!() };
+        V::Bytes(near_bytes(r, b))
+    }
+    fn to_native<'a>(v: &'a V) -> &'a [u8] {
+        let V::Bytes(b) = v else { panic!() };
+        b.as_slice()
+    }
+    fn from_native<'a>(x: &&'a [u8]) -> V {
+        V::Bytes(x.to_vec())
+    }
+}
+struct Fb<const N: usize>;
+impl<const N: usize> Ty for Fb<N> {
+    type K = &'static [u8; N];
+    fn desc() -> String {
+        format!("fb{N}")
+    }
+    fn rand(r: &mut Rng, _big: bool) -> V {
+        V::Bytes((0..N).map(|_| rand_byte(r)).collect())
+    }
+    fn near(r: &mut Rng, v: &V) -> V {
+        let V::Bytes(b) = v else { panic!() };
+        let mut b = b.clone();
+        if N > 0 && r.chance(4, 5) {
+            let i = r.below(N as u64) as usize;
+            b[i] = match r.below(3) {
+                0 => b[i].wrapping_add(1),
+                1 => b[i].wrapping_sub(1),
+                _ => rand_byte(r),
+            };
+        }
+        V::Bytes(b)
+    }
+    fn to_native<'a>(v: &'a V) -> &'a [u8; N] {
+        let V::Bytes(b) = v else { panic!() };
+        b.as_slice().try_into().unwrap()
+    }
+    fn from_native<'a>(x: &&'a [u8; N]) -> V {
+        V::Bytes(x.to_vec())
+    }
+}
+
+// ---- Option<T>
+struct Opt<T>(PhantomData<T>);
+impl<T: Ty> Ty for Opt<T> {
+    type K = Option<T::K>;
+    fn desc() -> String {
+        format!("opt({})", T::desc())
+    }
+    fn rand(r: &mut Rng, big: bool) -> V {
+        if r.chance(1, 4) { V::None_ } else { V::Some_(Box::new(T::rand(r, big))) }
+    }
+    fn near(r: &mut Rng, v: &V) -> V {
+        match v {
+            V::None_ => {
+                if r.chance(1, 2) { V::None_ } else { V::Some_(Box::new(T::rand(r, false))) }
+            }
+            V::Some_(x) => {
+                if r.chance(1, 6) { V::None_ } else { V::Some_(Box::new(T::near(r, x))) }
+            }
+            _ => panic!(),
+        }
+    }
+    fn to_native<'a>(v: &'a V) -> Option<<T::K as Value>::SelfType<'a>> {
+        match v {
+            V::None_ => None,
+            V::Some_(x) => Some(T::to_native(x)),
+            _ => panic!(),
+        }
+    }
+    fn from_native<'a>(x: &Option<<T::K as Value>::SelfType<'a>>) -> V {
+        match x {
+            None => V::None_,
+            Some(y) => V::Some_(Box::new(T::from_native(y))),
+        }
+    }
+}
+
+// ---- [T; N]
+struct Arr<T, const N: usize>(PhantomData<T>);
+impl<T: Ty, const N: usize> Ty for Arr<T, N> {
+    type K = [T::K; N];
+    fn desc() -> String {
+        format!("arr({N},{})", T::desc())
+    }
+    fn rand(r: &mut Rng, big: bool) -> V {
+        // at most one long element so that totals stay small
+        let long_at = if big { r.below(N as u64 + 1) as usize } else { N };
+        V::List((0..N).map(|i| T::rand(r, big && i == long_at)).collect())
+    }
+    fn near(r: &mut Rng, v: &V) -> V {
+        let V::List(l) = v else { panic!() };
+        let mut l = l.clone();
+        if N == 0 {
+            return V::List(l);
+        }
+        // element-wise ties before i, a near difference at i, the tail kept or re-drawn
+        let i = r.below(N as u64) as usize;
+        l[i] = T::near(r, &l[i]);
+        if r.chance(1, 3) {
+            for x in l.iter_mut().skip(i + 1) {
+                *x = if r.chance(1, 2) { T::rand(r, false) } else { T::near(r, x) };
+            }
+        }
+        V::List(l)
+    }
+    fn to_native<'a>(v: &'a V) -> [<T::K as Value>::SelfType<'a>; N] {
+        let V::List(l) = v else { panic!() };
+        std::array::from_fn(|i| T::to_native(&l[i]))
+    }
+    fn from_native<'a>(x: &[<T::K as Value>::SelfType<'a>; N]) -> V {
+        V::List(x.iter().map(|e| T::from_native(e)).collect())
+    }
+}
+
+// ---- tuples
+macro_rules! tup_ty {
+    ($name:ident; $($T:ident $i:tt),+) => {
+        struct $name<$($T),+>(PhantomData<($($T,)+)>);
+        impl<$($T: Ty),+> Ty for $name<$($T),+> {
+            type K = ($($T::K,)+);
+            fn desc() -> String {
+                let v: Vec<String> = vec![$($T::desc()),+];
+                format!("tup({})", v.join(","))
+            }
+            fn rand(r: &mut Rng, big: bool) -> V {
+                let n = [$($i),+].len();
+                let long_at = if big { r.below(n as u64 + 1) as usize } else { n };
+                V::List(vec![$($T::rand(r, big && $i == long_at)),+])
+            }
+            #[allow(unused_comparisons)]
+            fn near(r: &mut Rng, v: &V) -> V {
+                let V::List(l) = v else { panic!() };
+                let mut l = l.clone();
+                let n = l.len();
+                let k = r.below(n as u64) as usize;
+                let redraw = r.chance(1, 3);
+                $(
+                    if $i == k {
+                        l[$i] = $T::near(r, &l[$i]);
+                    } else if $i > k && redraw {
+                        l[$i] = if r.chance(1, 2) { $T::rand(r, false) } else { $T::near(r, &l[$i]) };
+                    }
+                )+
+                V::List(l)
+            }
+            fn to_native<'a>(v: &'a V) -> ($(<$T::K as Value>::SelfType<'a>,)+) {
+                let V::List(l) = v else { panic!() };
+                ($($T::to_native(&l[$i]),)+)
+            }
+            fn from_native<'a>(x: &($(<$T::K as Value>::SelfType<'a>,)+)) -> V {
+                V::List(vec![$($T::from_native(&x.$i)),+])
+            }
+        }
+    };
+}
+tup_ty!(Tup1; A 0);
+tup_ty!(Tup2; A 0, B 1);
+tup_ty!(Tup3; A 0, B 1, C 2);
+tup_ty!(Tup4; A 0, B 1, C 2, D 3);
+tup_ty!(Tup12; A 0, B 1, C 2, D 3, E 4, F 5, G 6, H 7, I 8, J 9, K2 10, L 11);
+
+// ------------------------------------------------------------------ running the real crate
 
 fn cmp_s(o: Ordering) -> &'static str {
     match o {
@@ -12,81 +700,395 @@ fn cmp_s(o: Ordering) -> &'static str {
         Ordering::Greater => "gt",
     }
 }
-
-fn gen_bytes(r: &mut Rng) -> Vec<u8> {
-    let alphabet: [u8; 6] = [0, 1, 0x7f, 0x80, 0xfe, 0xff];
-    let len = *r.pick(&[0usize, 0, 1, 1, 2, 3, 4, 6, 9, 17]);
-    (0..len)
-        .map(|_| if r.chance(3, 4) { *r.pick(&alphabet) } else { r.next_u64() as u8 })
-        .collect()
-}
-
-fn gen_bytes_pair(r: &mut Rng) -> (Vec<u8>, Vec<u8>) {
-    let a = gen_bytes(r);
-    let b = match r.below(5) {
-        0 => a.clone(),
-        1 => {
-            // common prefix, then diverge
-            let k = r.below(a.len() as u64 + 1) as usize;
-            let mut b = a[..k].to_vec();
-            b.extend(gen_bytes(r));
-            b
-        }
-        2 => {
-            let mut b = a.clone();
-            b.extend(gen_bytes(r));
-            b
-        }
-        _ => gen_bytes(r),
-    };
-    (a, b)
-}
-
-fn gen_u64(r: &mut Rng) -> u64 {
-    match r.below(6) {
-        0 => 0,
-        1 => u64::MAX,
-        2 => r.below(300),
-        3 => 1u64 << r.below(64),
-        4 => (1u64 << r.below(64)).wrapping_sub(1),
-        _ => r.next_u64(),
+fn cmp_impl<K: Key>(a: &[u8], b: &[u8]) -> &'static str {
+    match catch(|| K::compare(a, b)) {
+        Ok(o) => cmp_s(o),
+        Err(_) => "panic",
     }
+}
+fn enc<T: Ty>(v: &V) -> Option<Vec<u8>> {
+    catch(|| {
+        let n = T::to_native(v);
+        <T::K as Value>::as_bytes(&n).as_ref().to_vec()
+    })
+    .ok()
+}
+fn dec<T: Ty>(d: &[u8]) -> Option<V> {
+    catch(|| {
+        let x = <T::K as Value>::from_bytes(d);
+        T::from_native(&x)
+    })
+    .ok()
+}
+fn hex_or(o: &Option<Vec<u8>>, dflt: &str) -> String {
+    match o {
+        Some(b) => hex(b),
+        None => dflt.to_string(),
+    }
+}
+
+struct Out {
+    cases: String,
+    imp: String,
+    impx: String,
+    n_cases: u64,
+    n_types: u64,
+    nontrivial: HashSet<String>,
+    markers: BTreeMap<&'static str, u64>,
+    focus: Option<String>,
+    /// replay mode: run exactly these pairs (of the focus type) instead of generating
+    replay: Vec<(V, V)>,
+}
+impl Out {
+    fn mark(&mut self, m: &'static str) {
+        *self.markers.entry(m).or_insert(0) += 1;
+    }
+}
+
+/// facts about a separator returned by the implementation, for the direct oracle
+fn sep_facts<T: Ty>(pre: &str, s: &Option<Vec<u8>>, lo: &[u8], hi: &[u8], x: &mut String) {
+    match s {
+        None => write!(x, "{pre}sv=panic {pre}reenc=na {pre}cls=na {pre}csr=na ").unwrap(),
+        Some(s) => {
+            let sv = dec::<T>(s);
+            let reenc = match &sv {
+                Some(v) => match enc::<T>(v) {
+                    Some(e) => {
+                        if e == *s {
+                            "1"
+                        } else {
+                            "0"
+                        }
+                    }
+                    None => "0",
+                },
+                None => "na",
+            };
+            let svs = match &sv {
+                Some(v) => shown(v),
+                None => "panic".into(),
+            };
+            write!(
+                x,
+                "{pre}sv={svs} {pre}reenc={reenc} {pre}cls={} {pre}csr={} ",
+                cmp_impl::<T::K>(lo, s),
+                cmp_impl::<T::K>(s, hi)
+            )
+            .unwrap();
+        }
+    }
+}
+
+fn emit_type<T: Ty>(o: &mut Out, tid: usize) -> Option<Vec<u8>> {
+    o.n_types += 1;
+    writeln!(o.cases, "T {tid} {}", T::desc()).unwrap();
+    let fw = match <T::K as Value>::fixed_width() {
+        Some(w) => w.to_string(),
+        None => "none".into(),
+    };
+    let min = catch(|| <T::K as Key>::min_encoded_key().map(|c| c.into_owned())).ok().flatten();
+    writeln!(o.imp, "T {tid} fw={fw} min={}", hex_or(&min, "none")).unwrap();
+    match &min {
+        None => writeln!(o.impx, "minv=none minreenc=na").unwrap(),
+        Some(m) => {
+            let mv = dec::<T>(m);
+            let re = match &mv {
+                Some(v) => {
+                    if enc::<T>(v).as_deref() == Some(m.as_slice()) {
+                        "1"
+                    } else {
+                        "0"
+                    }
+                }
+                None => "na",
+            };
+            writeln!(o.impx, "minv={} minreenc={re}", mv.map(|v| shown(&v)).unwrap_or("panic".into())).unwrap();
+        }
+    }
+    min
+}
+
+fn emit_pair<T: Ty>(o: &mut Out, tid: usize, min: &Option<Vec<u8>>, a: &V, b: &V) -> (String, String) {
+    o.n_cases += 1;
+    let case = format!("C {tid} {} {}", shown(a), shown(b));
+    writeln!(o.cases, "{case}").unwrap();
+    let ea = enc::<T>(a);
+    let eb = enc::<T>(b);
+    let (Some(ea), Some(eb)) = (ea, eb) else {
+        writeln!(o.imp, "R panic panic na na none none false false").unwrap();
+        writeln!(o.impx, "as_bytes=panic").unwrap();
+        return ("panic".into(), "panic".into());
+    };
+    let rta = dec::<T>(&ea).as_ref() == Some(a);
+    let rtb = dec::<T>(&eb).as_ref() == Some(b);
+    let cab = cmp_impl::<T::K>(&ea, &eb);
+    let cba = cmp_impl::<T::K>(&eb, &ea);
+    let ord = a.cmp(b);
+    let mut x = String::new();
+    let (sep_h, bsep_h) = if ord == Ordering::Equal {
+        ("none".to_string(), "none".to_string())
+    } else {
+        let (lo, hi) = if ord == Ordering::Less { (&ea, &eb) } else { (&eb, &ea) };
+        let sep = catch(|| <T::K as Key>::separator(lo, hi).into_owned()).ok();
+        let bsep = catch(|| redb::verif::branch_separator::<T::K>(lo, hi)).ok();
+        sep_facts::<T>("", &sep, lo, hi, &mut x);
+        sep_facts::<T>("b", &bsep, lo, hi, &mut x);
+        // path markers
+        if let Some(s) = &sep {
+            if s.len() < lo.len() {
+                o.mark("sep_shorter_than_left");
+            } else if <T::K as Value>::fixed_width().is_none() {
+                o.mark("sep_is_left_variable_width");
+            }
+        }
+        (hex_or(&sep, "panic"), hex_or(&bsep, "panic"))
+    };
+    match min {
+        Some(m) => write!(x, "mina={} minb={}", cmp_impl::<T::K>(m, &ea), cmp_impl::<T::K>(m, &eb)).unwrap(),
+        None => write!(x, "mina=na minb=na").unwrap(),
+    }
+    writeln!(o.imp, "R {} {} {cab} {cba} {sep_h} {bsep_h} {rta} {rtb}", hex(&ea), hex(&eb)).unwrap();
+    writeln!(o.impx, "{x}").unwrap();
+    if ord != Ordering::Equal {
+        let first_diff = ea.iter().zip(eb.iter()).take_while(|(p, q)| p == q).count();
+        let mut nontrivial = <T::K as Value>::fixed_width().is_none();
+        if first_diff >= 1 {
+            o.mark("first_difference_after_byte_0");
+            nontrivial = true;
+        }
+        if first_diff < ea.len().min(eb.len()) && (ea[first_diff] ^ eb[first_diff]) & 0x80 != 0 {
+            o.mark("differing_byte_crosses_0x80");
+            nontrivial = true;
+        }
+        if first_diff < ea.len().min(eb.len()) && ea[first_diff] & 0xc0 == 0x80 && T::desc().contains("str") {
+            o.mark("maybe_inside_multibyte_char");
+        }
+        if ea.len() != eb.len() {
+            o.mark("different_encoded_length");
+        }
+        if ea.len() > 300 || eb.len() > 300 {
+            o.mark("long_encoding_over_300");
+        }
+        if ea.len() > 65535 || eb.len() > 65535 {
+            o.mark("long_encoding_over_65535");
+        }
+        if nontrivial {
+            o.nontrivial.insert(case);
+        }
+    } else {
+        o.mark("equal_pair");
+    }
+    (cab.to_string(), cba.to_string())
+}
+
+/// random clusters (a, b, c): pairs (a,b), (b,c), (a,c); transitivity of the implementation's compare
+/// on the triple is checked right here (the model's order is proved transitive)
+fn run_type<T: Ty>(o: &mut Out, r: &mut Rng, tid: usize, n_pairs: u64) {
+    if let Some(f) = &o.focus {
+        if *f != T::desc() {
+            return;
+        }
+    }
+    let min = emit_type::<T>(o, tid);
+    if !o.replay.is_empty() {
+        let pairs = o.replay.clone();
+        for (a, b) in &pairs {
+            emit_pair::<T>(o, tid, &min, a, b);
+        }
+        return;
+    }
+    let mut done = 0;
+    while done < n_pairs {
+        let big = r.chance(1, 8);
+        let a = T::rand(r, big);
+        let b = match r.below(8) {
+            0 => a.clone(),
+            1 | 2 | 3 | 4 => T::near(r, &a),
+            5 => {
+                let m = T::near(r, &a);
+                T::near(r, &m)
+            }
+            _ => T::rand(r, false),
+        };
+        let c = match r.below(4) {
+            0 => T::near(r, &a),
+            1 | 2 => T::near(r, &b),
+            _ => T::rand(r, false),
+        };
+        let (ab, _) = emit_pair::<T>(o, tid, &min, &a, &b);
+        let (bc, _) = emit_pair::<T>(o, tid, &min, &b, &c);
+        let (ac, ca) = emit_pair::<T>(o, tid, &min, &a, &c);
+        done += 3;
+        // transitivity / consistency of the implementation's own compare on the triple
+        let le = |s: &str| s == "lt" || s == "eq";
+        let bad = (le(&ab) && le(&bc) && !le(&ac)) || (ab == "lt" && le(&bc) && ac != "lt") || (le(&ab) && bc == "lt" && ac != "lt");
+        if bad || (ac == "lt") != (ca == "gt") {
+            // reported through a pseudo case so that it reaches the driver as a failing line
+            writeln!(o.cases, "X {tid} {} {} {}", shown(&a), shown(&b), shown(&c)).unwrap();
+            writeln!(o.imp, "X compare-not-transitive ab={ab} bc={bc} ac={ac} ca={ca}").unwrap();
+            writeln!(o.impx, "-").unwrap();
+        }
+    }
+}
+
+/// all ordered pairs of the given values
+fn run_all_pairs<T: Ty>(o: &mut Out, tid: usize, vals: &[V]) {
+    if let Some(f) = &o.focus {
+        if *f != T::desc() {
+            return;
+        }
+    }
+    let min = emit_type::<T>(o, tid);
+    for a in vals {
+        for b in vals {
+            emit_pair::<T>(o, tid, &min, a, b);
+        }
+    }
+}
+
+fn strings_upto(alphabet: &[char], maxlen: usize) -> Vec<V> {
+    let mut all: Vec<String> = vec![String::new()];
+    let mut layer: Vec<String> = vec![String::new()];
+    for _ in 0..maxlen {
+        let mut next = Vec::new();
+        for s in &layer {
+            for c in alphabet {
+                let mut t = s.clone();
+                t.push(*c);
+                next.push(t);
+            }
+        }
+        all.extend(next.iter().cloned());
+        layer = next;
+    }
+    all.into_iter().map(V::Str).collect()
+}
+fn bytes_upto(alphabet: &[u8], maxlen: usize) -> Vec<V> {
+    let mut all: Vec<Vec<u8>> = vec![vec![]];
+    let mut layer: Vec<Vec<u8>> = vec![vec![]];
+    for _ in 0..maxlen {
+        let mut next = Vec::new();
+        for s in &layer {
+            for c in alphabet {
+                let mut t = s.clone();
+                t.push(*c);
+                next.push(t);
+            }
+        }
+        all.extend(next.iter().cloned());
+        layer = next;
+    }
+    all.into_iter().map(V::Bytes).collect()
+}
+
+macro_rules! types {
+    ($o:expr, $r:expr, $n:expr, $tid:ident; $($t:ty),+ $(,)?) => {
+        $( run_type::<$t>($o, $r, $tid, $n); $tid += 1; )+
+    };
 }
 
 fn main() {
-    let n: u64 = std::env::args().nth(1).map(|s| s.parse().unwrap()).unwrap_or(1000);
+    silence_panics();
+    let n: u64 = std::env::args().nth(1).map(|s| s.parse().unwrap()).unwrap_or(100);
+    let focus = std::env::args().nth(2).filter(|s| s != "-");
+    let mode = std::env::args().nth(3).unwrap_or("random".into());
     let mut r = Rng::new(seed_from_env());
-    let mut cases = String::new();
-    let mut out = String::new();
-    let mut nontrivial = std::collections::HashSet::new();
-    for _ in 0..n {
-        if r.chance(1, 3) {
-            let a = gen_u64(&mut r);
-            let b = if r.chance(1, 6) { a } else if r.chance(1, 4) { a.wrapping_add(1) } else { gen_u64(&mut r) };
-            writeln!(cases, "u64 {a:x} {b:x}").unwrap();
-            let ea = <u64 as Value>::as_bytes(&a);
-            let eb = <u64 as Value>::as_bytes(&b);
-            let ea = ea.as_ref();
-            let eb = eb.as_ref();
-            let c = <u64 as Key>::compare(ea, eb);
-            let sep = if a < b { hex(&<u64 as Key>::separator(ea, eb)) } else { "none".into() };
-            let dec = <u64 as Value>::from_bytes(ea) == a;
-            writeln!(out, "{} {} {} {} {} {}", hex(ea), hex(eb), cmp_s(c), cmp_s(<u64 as Key>::compare(eb, ea)), sep, dec).unwrap();
-            if a != b { nontrivial.insert(format!("u{a:x}/{b:x}")); }
-        } else {
-            let (a, b) = gen_bytes_pair(&mut r);
-            writeln!(cases, "bytes {} {}", hex(&a), hex(&b)).unwrap();
-            let (sa, sb) = (a.as_slice(), b.as_slice());
-            let ea: &[u8] = <&[u8] as Value>::as_bytes(&sa);
-            let eb: &[u8] = <&[u8] as Value>::as_bytes(&sb);
-            let c = <&[u8] as Key>::compare(ea, eb);
-            let sep = if a < b { hex(&<&[u8] as Key>::separator(ea, eb)) } else { "none".into() };
-            let dec = <&[u8] as Value>::from_bytes(ea) == a.as_slice();
-            writeln!(out, "{} {} {} {} {} {}", hex(ea), hex(eb), cmp_s(c), cmp_s(<&[u8] as Key>::compare(eb, ea)), sep, dec).unwrap();
-            if a != b && !a.is_empty() && !b.is_empty() { nontrivial.insert(format!("b{}/{}", hex(&a), hex(&b))); }
+    let mut o = Out {
+        cases: String::new(),
+        imp: String::new(),
+        impx: String::new(),
+        n_cases: 0,
+        n_types: 0,
+        nontrivial: HashSet::new(),
+        markers: BTreeMap::new(),
+        focus,
+        replay: Vec::new(),
+    };
+    if mode == "replay" {
+        // c15 0 <type> replay <a> <b> [<a> <b> ...]
+        let rest: Vec<String> = std::env::args().skip(4).collect();
+        for ch in rest.chunks(2) {
+            if ch.len() == 2 {
+                let a = parse_v(ch[0].as_bytes(), &mut 0);
+                let b = parse_v(ch[1].as_bytes(), &mut 0);
+                o.replay.push((a, b));
+            }
         }
     }
-    std::fs::write("cases.txt", cases).unwrap();
-    std::fs::write("impl.txt", out).unwrap();
-    println!("cases={} distinct_nontrivial={}", n, nontrivial.len());
+    let mut tid = 0usize;
+    let r = &mut r;
+    let o = &mut o;
+    if mode == "random" || mode == "replay" {
+        // n = pairs per type
+        types!(o, r, n, tid;
+            // every leaf type
+            Unit, Bool, Char, U8, U16, U32, U64, U128, I8, I16, I32, I64, I128,
+            Str, StrOwned, Bytes, Fb<4>, Fb<0>, Fb<16>,
+            // Option: fixed width payloads (padding), variable payloads, nesting
+            Opt<U32>, Opt<I8>, Opt<Unit>, Opt<Bool>, Opt<Fb<4>>, Opt<Str>, Opt<StrOwned>, Opt<Bytes>,
+            Opt<Opt<Bytes>>, Opt<Opt<U16>>, Opt<Arr<Str, 2>>, Opt<Arr<U16, 2>>, Opt<Tup2<Str, U8>>, Opt<Tup2<U8, Bool>>,
+            // arrays: fixed and variable width elements, with and without min_encoded_key, nesting
+            Arr<U16, 3>, Arr<U8, 4>, Arr<I8, 2>, Arr<Char, 2>, Arr<Unit, 3>, Arr<Opt<U16>, 2>, Arr<Tup2<U8, I16>, 2>,
+            Arr<Str, 1>, Arr<Str, 2>, Arr<Str, 3>, Arr<StrOwned, 2>, Arr<Bytes, 3>, Arr<Str, 0>,
+            Arr<Opt<Str>, 3>, Arr<Opt<Opt<Str>>, 2>, Arr<Opt<Bytes>, 2>,
+            Arr<Arr<Str, 2>, 2>, Arr<Arr<U8, 2>, 3>, Arr<Tup2<Str, Str>, 2>, Arr<Tup1<Str>, 3>, Arr<Tup2<U8, Bytes>, 2>,
+            // tuples: fixed, variable (varint headers for all but the last variable element), nesting
+            Tup1<Str>, Tup1<U32>, Tup1<Opt<Str>>, Tup2<U16, U8>, Tup3<I8, Bool, Char>,
+            Tup2<U32, Str>, Tup2<Str, U8>, Tup2<Str, Str>, Tup3<Bytes, U8, Str>, Tup3<Str, Str, U16>,
+            Tup2<Opt<Str>, U64>, Tup2<Opt<U8>, Opt<Bytes>>, Tup4<Str, Bytes, Opt<Str>, Str>,
+            Tup2<Arr<Str, 2>, Arr<U8, 2>>, Tup2<Arr<U16, 2>, Arr<Bytes, 2>>, Tup2<Tup2<Str, U8>, Str>, Tup2<Str, Tup2<U8, Str>>,
+            Tup12<U8, Str, I16, Bytes, Bool, Opt<Str>, Char, Unit, U64, Str, Fb<2>, I128>,
+        );
+    } else {
+        // exhaustive small scopes (thorough tier)
+        let six = ['\u{0}', 'a', '\u{7f}', '\u{e9}', '\u{800}', '\u{1d11e}'];
+        let six_b = ['a', '\u{80}', '\u{7ff}', '\u{ffff}', '\u{10000}', '\u{10ffff}'];
+        run_all_pairs::<Str>(o, tid, &strings_upto(&six, 3));
+        tid += 1;
+        run_all_pairs::<StrOwned>(o, tid, &strings_upto(&six_b, 2));
+        tid += 1;
+        run_all_pairs::<Opt<Str>>(o, tid, &{
+            let mut v: Vec<V> = strings_upto(&six_b, 2).into_iter().map(|s| V::Some_(Box::new(s))).collect();
+            v.push(V::None_);
+            v
+        });
+        tid += 1;
+        run_all_pairs::<Bytes>(o, tid, &bytes_upto(&[0, 1, 0x7f, 0x80, 0xff], 3));
+        tid += 1;
+        run_all_pairs::<U8>(o, tid, &(0..=255u128).map(V::U).collect::<Vec<_>>());
+        tid += 1;
+        run_all_pairs::<I8>(o, tid, &(-128..=127i128).map(V::I).collect::<Vec<_>>());
+        tid += 1;
+        run_all_pairs::<Opt<I8>>(o, tid, &{
+            let mut v: Vec<V> = (-128..=127i128).step_by(5).map(|x| V::Some_(Box::new(V::I(x)))).collect();
+            v.push(V::None_);
+            v
+        });
+        tid += 1;
+        // all pairs of 2-element string arrays over a 3-scalar alphabet, strings up to 2 chars
+        let small = strings_upto(&['a', '\u{e9}', '\u{1d11e}'], 2);
+        let mut arrs = Vec::new();
+        for x in &small {
+            for y in &small {
+                arrs.push(V::List(vec![x.clone(), y.clone()]));
+            }
+        }
+        run_all_pairs::<Arr<Str, 2>>(o, tid, &arrs);
+        tid += 1;
+        run_all_pairs::<Tup2<Str, Str>>(o, tid, &arrs);
+        tid += 1;
+        let _ = tid;
+        let _ = tier_is_thorough();
+    }
+    std::fs::write("cases.txt", &o.cases).unwrap();
+    std::fs::write("impl.txt", &o.imp).unwrap();
+    std::fs::write("implx.txt", &o.impx).unwrap();
+    let markers: Vec<String> = o.markers.iter().map(|(k, v)| format!("{k}={v}")).collect();
+    println!(
+        "cases={} distinct_nontrivial={} types={} markers={}",
+        o.n_cases,
+        o.nontrivial.len(),
+        o.n_types,
+        markers.join(",")
+    );
 }
